@@ -7,6 +7,7 @@ pub mod lib;
 pub mod oracles;
 pub mod scenario;
 pub mod sim;
+pub mod sockdrv;
 
 use serde_json::Value;
 
